@@ -86,6 +86,10 @@ CLAIMED = {
             'Over all 350 library units (9300 functions): every range-for, begin()/top() access or algorithm call over a container whose iteration order is a function of addresses (std::set/map keyed by raw or smart pointers with the default comparator, unordered containers keyed by pointers, heaps ordering pointer-carrying pairs generically), including orders copied into a local sequence that is traversed later, is located in the S4U core (src/kernel, src/s4u, src/xbt and their headers) and its loop body must not reach, in the call graph, a function that makes the order observable (run-queue insertion, simcall answer, signals, user callbacks, timers, action heap, LMM variable creation/expansion, resource events, activity finish/cancel/suspend/resume, actor kill, logging). Every heap declared in that scope must break ties without addresses; the run queues are only appended/swapped/cleared and simcalls handled by one forward loop; no wall-clock/random/pid source is called outside an enumerated list. A rule on code shape holds for every program and every address-space layout, which running a scenario once cannot show.',
             'Calls through std::function/signals/function pointers are unknown user code (treated as observable); implicit destructor calls are not in the call graph; a user-defined comparator or operator< that itself compares pointers is not recognised; plugins, DAG loaders, SMPI and tracing are analysed as callees only (their own traversals are listed as notes, not decided); floating-point reproducibility is not decided.',
             'DESIGN.md §3 C01'),
+    'C10': ('CFG path rules and finite-state abstract exploration along the failure chain: must-pass-through (turn_off -> cancel_actions, run() -> handle_ended_actions, drains), guard truth table (cancel_actions state filter), exhaustiveness of the failure-state switch of every finish(), overwritten-state and sibling null-check contradiction rules',
+            'Each link of the chain from a resource failure to the exception in the waiting actor is decided on all paths of the code that implements it: every Resource::turn_off override marks the resource off and fails its actions; cancel_actions fails exactly the INITED/STARTED/IGNORED actions of every variable of the constraint; EngineImpl::run handles ended actions after every sub-round and every timer batch, and handle_ended_actions drains failed and done actions of every model and finishes their activities; Comm/Exec/Io/Sleep/Mess finish() answer each live registered simcall exactly once, have a case storing an exception for every failure state the class can be put in, never kill the waiter instead, compute a failure state from a dead host/disk and never overwrite it; HostImpl::turn_off kills every hosted actor, exit() cancels and finishes what the victim waits for, on_exit callbacks get wannadie(); the issuer returned by unregister_first_simcall is null-tested before use in every finish(). Holds for every program, failure date and set of participants.',
+            'Dates of the reports and global liveness are not decided; the CpuTi model is a recorded finding; the model-checking branch of ConditionVariableAcquisitionImpl::finish is a listed exception (reason in the checker).',
+            'DESIGN.md §3 C10'),
 }
 
 NOT_APPLICABLE = {
